@@ -4,7 +4,7 @@ cd /verif
 for d in seeded/*/; do
   n=$(basename $d); p=${n%-*}
   [ -f $d/patch.diff ] || continue
-  git -C /repo apply $d/patch.diff 2>/dev/null || { echo "$n APPLY-FAILED"; continue; }
+  git -C /repo apply /verif/$d/patch.diff 2>/dev/null || { echo "$n APPLY-FAILED"; continue; }
   out=$(VERIF_TIER=quick timeout 1500 ./check $p 2>&1); rc=$?
   git -C /repo checkout -- . ; git -C /repo clean -fdq
   v=$(echo "$out" | grep -c '^VIOLATION')
